@@ -12,11 +12,13 @@ attribute [runsimp] PE.ofExcept PE.withFinally bind PE.bind' PE.pure' PE.throw' 
   Prog.run acquire release unitPrim PE.prim respond faultStep respondCore eff isFile readRef readOpen readObj
   readDoc sizeIsZero listDocs inProgress isLocked openTmpWrite Locks.get Locks.put applyEff Store.apply
   Store.isFile Store.retire Store.remove FMap.contains tryCatch pure throw Store.setTmp Store.tmpCount
-  checkString
 
 theorem pyLines_single (p : Str) (hp : hasSpace p = false) : pyLines (p ++ ['\n']) = [p] := by
   have := pyLines_render [p] (by intro l hl; simp at hl; subst hl; exact hp)
   simpa [renderLines] using this
+
+theorem checkString_of_ok {p : Str} (hp : checkStringOk p = true) : checkString (.str p) = .ok p := by
+  simp [checkString, hp]
 
 theorem nospace_of_ok {p : Str} (hp : checkStringOk p = true) : hasSpace p = false :=
   ((checkStringOk_iff p).mp hp).2
@@ -36,7 +38,7 @@ theorem tag_neither (st : Store) (log : List Eff) (p c : Str) (hp : checkStringO
                       dirs := (Area.cidRef, c) :: (Area.pidRef, o.hId p) :: st.dirs }
          (log ++ [Eff.mkdirs Area.pidRef (o.hId p), Eff.mkdirs Area.cidRef c, Eff.mkTmp TmpArea.refs,
                   Eff.mkTmp TmpArea.refs, Eff.publishPidRef (o.hId p) c, Eff.publishCidRef c (p ++ ['\n'])])) := by
-  simp [calm, tagObject, storeRefs, runsimp, hp, hc, h1, h2, writeRefsTmp, verifyRefs, inRefs,
+  simp [calm, tagObject, storeRefs, runsimp, checkString_of_ok hp, checkString_of_ok hc, h1, h2, writeRefsTmp, verifyRefs, inRefs,
     pyLines_single p (nospace_of_ok hp)]
 
 theorem tag_pid_only (st : Store) (log : List Eff) (p c x : Str) (hp : checkStringOk p = true)
@@ -45,7 +47,7 @@ theorem tag_pid_only (st : Store) (log : List Eff) (p c x : Str) (hp : checkStri
       (.error .pidRefsAlreadyExists,
        calm { st with dirs := (Area.cidRef, c) :: (Area.pidRef, o.hId p) :: st.dirs }
          (log ++ [Eff.mkdirs Area.pidRef (o.hId p), Eff.mkdirs Area.cidRef c])) := by
-  simp [calm, tagObject, storeRefs, runsimp, hp, hc, h1, h2]
+  simp [calm, tagObject, storeRefs, runsimp, checkString_of_ok hp, checkString_of_ok hc, h1, h2]
 
 theorem tag_both (st : Store) (log : List Eff) (p c x t : Str) (hp : checkStringOk p = true)
     (hc : checkStringOk c = true) (h1 : st.pidRefs.get (o.hId p) = some x) (h2 : st.cidRefs.get c = some t) :
@@ -53,7 +55,34 @@ theorem tag_both (st : Store) (log : List Eff) (p c x t : Str) (hp : checkString
       (.error .hashStoreRefsAlreadyExists,
        calm { st with dirs := (Area.cidRef, c) :: (Area.pidRef, o.hId p) :: st.dirs }
          (log ++ [Eff.mkdirs Area.pidRef (o.hId p), Eff.mkdirs Area.cidRef c])) := by
-  simp [calm, tagObject, storeRefs, runsimp, hp, hc, h1, h2, verifyRefs]
-  split <;> (try split) <;> simp [runsimp]
+  by_cases hx : x = c
+  · by_cases hin : inRefs p t = true
+    · simp [calm, tagObject, storeRefs, runsimp, checkString_of_ok hp, checkString_of_ok hc, h1, h2, verifyRefs, hx, hin]
+    · simp [calm, tagObject, storeRefs, runsimp, checkString_of_ok hp, checkString_of_ok hc, h1, h2, verifyRefs, hx, hin]
+  · simp [calm, tagObject, storeRefs, runsimp, checkString_of_ok hp, checkString_of_ok hc, h1, h2, verifyRefs, hx]
+
+/-- the cid already has a well-formed list: the pid reference is written and the
+    pid appended (or found already listed) -/
+theorem tag_cid_only (st : Store) (log : List Eff) (p c : Str) (ls : List Str) (hp : checkStringOk p = true)
+    (hc : checkStringOk c = true) (h1 : st.pidRefs.get (o.hId p) = none)
+    (h2 : st.cidRefs.get c = some (renderLines ls)) (hls : ∀ l ∈ ls, hasSpace l = false) (hnot : p ∉ ls) :
+    (tagObject cfg o (.str p) (.str c)).run (calm st log) =
+      (.ok .unit,
+       calm { st with pidRefs := st.pidRefs.set (o.hId p) c, cidRefs := st.cidRefs.set c (renderLines (ls ++ [p])),
+                      dirs := (Area.cidRef, c) :: (Area.pidRef, o.hId p) :: st.dirs }
+         (log ++ [Eff.mkdirs Area.pidRef (o.hId p), Eff.mkdirs Area.cidRef c, Eff.mkTmp TmpArea.refs,
+                  Eff.publishPidRef (o.hId p) c, Eff.appendCid c (p ++ ['\n'])])) := by
+  have hsp := nospace_of_ok hp
+  have hin : inRefs p (renderLines ls) = false := by
+    rw [inRefs_render p ls hls]; simpa using hnot
+  have hls' : ∀ l ∈ ls ++ [p], hasSpace l = false := by
+    intro l hl
+    rcases List.mem_append.mp hl with h | h
+    · exact hls l h
+    · simp at h; subst h; exact hsp
+  have hin' : inRefs p (renderLines (ls ++ [p])) = true := by
+    rw [inRefs_render p _ hls']; simp
+  simp [calm, tagObject, storeRefs, runsimp, checkString_of_ok hp, checkString_of_ok hc, h1, h2, writeRefsTmp, verifyRefs, updateRefsAdd, hin,
+    renderLines_snoc, hin']
 
 end HS
